@@ -1048,12 +1048,17 @@ package main
 //@ func presOfflineFilter(mode types.AccessMode, what string, pf *presFilters) (ok bool)
 //@   modifies nothing
 //@   ensures [C10] needs_permission: ok ==> what == "acs" || what == "gone" || (what == "upd" && (mode & types.ModeJoin) != 0) || (mode & types.ModePres) != 0
+// The two clauses below are the property's own words ("update ... notifications are delivered only to subscribers whose
+// effective permissions include presence", "never to ... banned ... users"); the clause above is what the code does.
+//@   ensures [C10] updates_need_presence: ok && what == "upd" ==> (mode & types.ModePres) != 0
+//@   ensures [C10] never_to_banned: ok && what != "acs" && what != "gone" ==> (mode & types.ModeJoin) != 0
 //@ func (t *Topic) infoSubsOffline(from types.Uid, what string, seq int, skipSid string)
 //@   requires [C10,assumed] t != nil
 //@   requires [C10,assumed] hub_running: globals.hub != nil
 //@   modifies inferred
 //@   loop 1
 //@     iterates [C09,C10] receipts_need_P_and_R: sent(globals.hub.routeSrv) > prev(sent(globals.hub.routeSrv)) ==> !pud.deleted && ((pud.modeGiven & pud.modeWant) & types.ModePres) != 0 && ((pud.modeGiven & pud.modeWant) & types.ModeRead) != 0
+//@     iterates [C10] receipts_never_to_banned: sent(globals.hub.routeSrv) > prev(sent(globals.hub.routeSrv)) ==> ((pud.modeGiven & pud.modeWant) & types.ModeJoin) != 0
 //@     iterates [C10] one_per_subscriber: sent(globals.hub.routeSrv) <= prev(sent(globals.hub.routeSrv)) + 1
 //@ func (t *Topic) presSubsOffline(what string, params *presParams, filterSource *presFilters, filterTarget *presFilters, skipSid string, offlineOnly bool)
 //@   requires [C10,assumed] t != nil && params != nil && filterTarget != nil
@@ -1061,6 +1066,7 @@ package main
 //@   modifies inferred
 //@   loop 1
 //@     iterates [C10] presence_needs_permission: sent(globals.hub.routeSrv) > prev(sent(globals.hub.routeSrv)) ==> !pud.deleted && (what == "acs" || what == "gone" || (what == "upd" && ((pud.modeGiven & pud.modeWant) & types.ModeJoin) != 0) || ((pud.modeGiven & pud.modeWant) & types.ModePres) != 0)
+//@     iterates [C10] presence_never_to_banned: sent(globals.hub.routeSrv) > prev(sent(globals.hub.routeSrv)) ==> what == "acs" || what == "gone" || ((pud.modeGiven & pud.modeWant) & types.ModeJoin) != 0
 //@     iterates [C10] one_per_subscriber: sent(globals.hub.routeSrv) <= prev(sent(globals.hub.routeSrv)) + 1
 // An idle topic that unloads says so: a 'me' topic tells the user's contacts "off", a group tells its members "off" -
 // channel-enabled or not.
